@@ -130,6 +130,15 @@ pub fn c06_subs() -> Vec<Box<dyn Sub>> {
             max_shrink: 4096,
         }),
         Box::new(Check {
+            name: "layout_large",
+            quick: 320,
+            thorough: 8_000,
+            strat: Box::new(|| reg_large().boxed()),
+            body: Box::new(c06_body),
+            guard_death: false,
+            max_shrink: 64,
+        }),
+        Box::new(Check {
             name: "layout_wf",
             quick: 10_000,
             thorough: 500_000,
@@ -259,6 +268,15 @@ pub fn c07_subs() -> Vec<Box<dyn Sub>> {
             max_shrink: 4096,
         }),
         Box::new(Check {
+            name: "roundtrip_large",
+            quick: 320,
+            thorough: 8_000,
+            strat: Box::new(|| (reg_large(), any::<u16>(), any::<u16>(), vec(any::<u8>(), 0..6)).prop_map(|(m, which, sel, trailer)| C07Case { m, other: MReg::default(), which, sel, trailer }).boxed()),
+            body: Box::new(c07_body),
+            guard_death: false,
+            max_shrink: 64,
+        }),
+        Box::new(Check {
             name: "roundtrip_wf",
             quick: 10_000,
             thorough: 500_000,
@@ -383,6 +401,15 @@ pub fn c08_subs() -> Vec<Box<dyn Sub>> {
             body: Box::new(c08_body),
             guard_death: false,
             max_shrink: 4096,
+        }),
+        Box::new(Check {
+            name: "json_large",
+            quick: 160,
+            thorough: 4_000,
+            strat: Box::new(|| reg_large().boxed()),
+            body: Box::new(c08_body),
+            guard_death: false,
+            max_shrink: 64,
         }),
         Box::new(Check {
             name: "json_wf",
